@@ -199,7 +199,6 @@ fn reconstruct(run: u32, banks: &BankList) -> Result<(bool, usize, bool), String
 }
 
 fn random_kind(r: &mut Rng, tier: Tier, index: u64) -> Kind {
-    let _ = tier;
     match index % 10 {
         0 => Kind::Fwd { tracks: r.usize(1, 6), noise: *r.pick(&[0.0, 2.0, 10.0, 200.0]), amp_scale: *r.pick(&[1.0, 1.0, 0.05, 8.0, 40.0]) },
         1 | 2 | 3 => Kind::Extreme {
@@ -213,7 +212,7 @@ fn random_kind(r: &mut Rng, tier: Tier, index: u64) -> Kind {
             seam: r.chance(1, 3),
         },
         4 | 5 => Kind::Pulse { wire: r.usize(0, 255), bin: r.usize(0, 300), row: r.usize(0, 575), amp: *r.pick(&[80.0, 20.0, 300.0]) },
-        6 | 7 => Kind::Hits { pattern: r.below(8) as u8, n: *r.pick(&[1usize, 2, 12, 13, 14, 30, 60, 256]) },
+        6 | 7 => Kind::Hits { pattern: r.below(8) as u8, n: if tier == Tier::Thorough && r.chance(1, 20) { *r.pick(&[600usize, 1000, 2000]) } else { *r.pick(&[1usize, 2, 12, 13, 14, 30, 60, 256]) } },
         8 => Kind::Random { n: r.usize(0, 12) },
         _ => Kind::EvFault {
             base: BaseEvent { run: *r.pick(&[u32::MAX, 11084, 9277, 0]), seed: r.next_u64(), n_wires: r.usize(1, 30), n_pad_msgs: r.usize(0, 3), long_only: r.chance(1, 2), pad_start: None },
